@@ -30,7 +30,7 @@ var vfHostileU32 = []uint32{0, 1, 2, 3, 4, 5, 8, 9, 255, 256, 65535, 65536, 1<<3
 
 func vfGenMut(t *rapid.T) vfMut {
 	m := vfMut{}
-	switch rapid.IntRange(0, 9).Draw(t, "mutkind") {
+	switch rapid.IntRange(0, 12).Draw(t, "mutkind") {
 	case 0, 1, 2:
 		m.Kind = "cut"
 		m.Off = rapid.IntRange(0, 40).Draw(t, "cutat")
@@ -57,6 +57,13 @@ func vfGenMut(t *rapid.T) vfMut {
 		m.Kind = "framelen"
 		m.Val = rapid.SampledFrom([]uint32{0, 256*1024 + 1, 1<<32 - 1, 1 << 31}).Draw(t, "framelen")
 	default:
+		if k := rapid.IntRange(0, 3).Draw(t, "semantic"); k != 0 {
+			// well-formed but over-long / absurd replies, built with the reference codec
+			m.Kind = "sem"
+			m.Val = uint32(rapid.IntRange(0, 11).Draw(t, "semkind"))
+			m.Off = rapid.SampledFrom([]int{1, 2, 15, 16, 17, 100, 1000, 1001, 32768, 32769, 70000, 200000}).Draw(t, "semarg")
+			break
+		}
 		m.Kind = "bytes"
 		m.Val = uint32(rapid.SampledFrom([]byte{101, 102, 103, 104, 105, 201}).Draw(t, "btype"))
 		m.Bytes = rapid.SliceOfN(rapid.Byte(), 0, 40).Draw(t, "bbytes")
@@ -99,8 +106,73 @@ func vfApplyMut(frame []byte, m vfMut) []byte {
 	case "bytes":
 		id := body[1:5]
 		body = append(append([]byte{byte(m.Val)}, id...), m.Bytes...)
+	case "sem":
+		if out := vfSemMut(body, m); out != nil {
+			return out
+		}
 	}
 	return vfFrame(body)
+}
+
+// vfSemMut rewrites a reply into another *well-formed* reply that no honest
+// server would send: more data than was asked for, longer or more numerous
+// names, absurd attribute values, a different (valid) reply type.
+func vfSemMut(body []byte, m vfMut) []byte {
+	p, _, err := vfDecodeBody(body)
+	if err != nil {
+		return nil
+	}
+	k := m.Off
+	if k > 200000 {
+		k = 200000
+	}
+	filler := func(n int) []byte { return vfPRFBytes(99, 0, n) }
+	switch m.Val % 12 {
+	case 0: // DATA carrying k more bytes than the honest reply (i.e. more than requested)
+		if p.Type != vfFxpData {
+			p = &vfPkt{Type: vfFxpData, ID: p.ID}
+		}
+		p.Data = append(append([]byte{}, p.Data...), filler(k)...)
+	case 1: // DATA with no bytes
+		p = &vfPkt{Type: vfFxpData, ID: p.ID}
+	case 2: // a very long handle
+		p = &vfPkt{Type: vfFxpHandle, ID: p.ID, Handle: filler(k)}
+	case 3: // an empty handle
+		p = &vfPkt{Type: vfFxpHandle, ID: p.ID}
+	case 4: // many name entries
+		n := k
+		if n > 3000 {
+			n = 3000
+		}
+		q := &vfPkt{Type: vfFxpName, ID: p.ID}
+		for i := 0; i < n; i++ {
+			q.Names = append(q.Names, vfName{Name: []byte(fmt.Sprintf("e%d", i)), Long: []byte("l"), Attrs: vfAttrs{Flags: vfAttrSize, Size: uint64(i)}})
+		}
+		p = q
+	case 5: // names with odd content
+		p = &vfPkt{Type: vfFxpName, ID: p.ID, Names: []vfName{{Name: nil}, {Name: []byte("/")}, {Name: []byte("a/b/../..")}, {Name: filler(minInt(k, 70000))}, {Name: []byte("..")}}}
+	case 6: // zero names
+		p = &vfPkt{Type: vfFxpName, ID: p.ID}
+	case 7: // attributes with absurd values
+		p = &vfPkt{Type: vfFxpAttrs, ID: p.ID, Attrs: &vfAttrs{Flags: vfAttrSize | vfAttrPermissions | vfAttrACModTime | vfAttrUIDGID, Size: 1<<63 + uint64(k), Perm: 0o100644, Atime: 1<<32 - 1, Mtime: 1<<32 - 1, UID: 1<<32 - 1, GID: 1<<32 - 1}}
+	case 8: // attributes claiming a size a little larger/smaller than the truth, regular file
+		p = &vfPkt{Type: vfFxpAttrs, ID: p.ID, Attrs: &vfAttrs{Flags: vfAttrSize | vfAttrPermissions, Size: uint64(k), Perm: 0o100644}}
+	case 9: // attributes with many extended pairs
+		a := &vfAttrs{Flags: vfAttrExtended}
+		for i := 0; i < minInt(k, 5000); i++ {
+			a.Ext = append(a.Ext, vfExt{Name: []byte("t"), Data: []byte("d")})
+		}
+		p = &vfPkt{Type: vfFxpAttrs, ID: p.ID, Attrs: a}
+	case 10: // status with a huge message
+		p = &vfPkt{Type: vfFxpStatus, ID: p.ID, Code: uint32(k % 10), Msg: filler(minInt(k, 100000)), Lang: []byte("en")}
+	default: // extended reply of odd length
+		p = &vfPkt{Type: vfFxpExtendedReply, ID: p.ID, Raw: filler(minInt(k, 1000))}
+	}
+	out := vfEncode(p)
+	if len(out)-4 > vfMaxFrame {
+		return nil
+	}
+	return out
 }
 
 func vfGenC20(t *rapid.T) vfCaseC20 {
